@@ -72,11 +72,22 @@ DefIds(t) ==
     [] t.k = "bin" -> DefIds(t.l) \cup DefIds(t.r)
     [] OTHER -> {}
 
-Resolvable(tab, scope, id) == LET r == Lookup(tab, scope, id.path) IN r.found /\ tab[r.key].k \in {"num", "str"}
-EnvFor(t, tab, scope) ==
-  LET ids == {i \in Ids(t) \cup DefIds(t) : Resolvable(tab, scope, i)} IN
-  [nm \in {i.name : i \in ids} |-> LET i == CHOOSE i \in ids : i.name = nm IN tab[Lookup(tab, scope, i.path).key]]
-Unresolved(t, tab, scope) == {i \in Ids(t) : ~Resolvable(tab, scope, i)}
+(* Lookup during a pass: a scope node that exists but has no value yet (its label is defined later in this pass, or it is
+   only a namespace) ends the search at that level -- the implementation does not look further out. *)
+RECURSIVE BubbleN(_, _, _, _)
+BubbleN(tab, nodes, scope, path) ==
+  LET k == Key(scope, path) IN
+  IF k \in DOMAIN tab THEN [found |-> TRUE, key |-> k]
+  ELSE IF k \in nodes THEN [found |-> FALSE, key |-> ""]
+  ELSE IF scope = <<>> THEN [found |-> FALSE, key |-> ""]
+  ELSE BubbleN(tab, nodes, Front(scope), path)
+LookupN(tab, nodes, scope, path) == IF HasSuper(path) THEN Lookup(tab, scope, path) ELSE BubbleN(tab, nodes, scope, path)
+
+Resolvable(tab, nodes, scope, id) == LET r == LookupN(tab, nodes, scope, id.path) IN r.found /\ tab[r.key].k \in {"num", "str"}
+EnvFor(t, tab, nodes, scope) ==
+  LET ids == {i \in Ids(t) \cup DefIds(t) : Resolvable(tab, nodes, scope, i)} IN
+  [nm \in {i.name : i \in ids} |-> LET i == CHOOSE i \in ids : i.name = nm IN tab[LookupN(tab, nodes, scope, i.path).key]]
+Unresolved(t, tab, nodes, scope) == {i \in Ids(t) : ~Resolvable(tab, nodes, scope, i)}
 
 (* string helpers (TLC evaluates Len/SubSeq on strings) *)
 HasPrefix(k, p) == Len(k) > Len(p) /\ SubSeq(k, 1, Len(p)) = p
@@ -85,13 +96,14 @@ SpecialFirst(k, p) == LET c == SubSeq(k, Len(p) + 1, Len(p) + 1) IN c = "$" \/ c
 
 (* ---------------------------------------------------------------- walk state *)
 (* seg: [init, toff, pc, mem]   mem: function written address -> byte             *)
-NewSeg(init, target) == [init |-> init, toff |-> target - init, pc |-> init, mem |-> <<>>]
+(* rlo/rhi: the range the implementation keeps (grown by every emission, also an empty one; touched = data allocated) *)
+NewSeg(init, target) == [init |-> init, toff |-> target - init, pc |-> init, mem |-> <<>>, rlo |-> init, rhi |-> init, touched |-> FALSE]
 TPc(st) == LET s == st.segs[st.cur] IN s.pc + s.toff
 HasSeg(st) == st.cur # "" /\ st.cur \in DOMAIN st.segs
 
 InitState(tab, segs, cur) ==
   [segs |-> segs, cur |-> cur, scope |-> <<>>, tab |-> tab, defined |-> {}, errs |-> {}, undef |-> {},
-   macroN |-> 0, unspec |-> FALSE, srcmap |-> <<>>, labels |-> {}, vars |-> {}, aliases |-> {}]
+   macroN |-> 0, unspec |-> FALSE, srcmap |-> <<>>, labels |-> {}, vars |-> {}, aliases |-> {}, nodes |-> {}]
 
 Err(st, e) == [st EXCEPT !.errs = @ \cup {e}]
 Unspec(st) == [st EXCEPT !.unspec = TRUE]
@@ -103,6 +115,9 @@ Emit(st, bytes, sid) ==
        IF s.pc > 65535 \/ s.pc + n > 65536 THEN Err(st, [k |-> "range", sid |-> sid])
        ELSE LET mem2 == [a \in s.pc..(s.pc + n - 1) |-> bytes[a - s.pc + 1]] @@ s.mem IN
             [st EXCEPT !.segs[st.cur].mem = mem2, !.segs[st.cur].pc = s.pc + n,
+                       !.segs[st.cur].rlo = IF ~s.touched \/ s.pc < s.rlo THEN s.pc ELSE s.rlo,
+                       !.segs[st.cur].rhi = IF ~s.touched \/ s.pc + n > s.rhi THEN s.pc + n ELSE s.rhi,
+                       !.segs[st.cur].touched = TRUE,
                        !.srcmap = Append(@, [sid |-> sid, seg |-> st.cur, lo |-> s.pc + s.toff, n |-> n, scope |-> st.scope])]
 
 (* define a symbol in the current scope.
@@ -115,14 +130,16 @@ Define(st, name, v, first) ==
   IF first /\ k \in st.defined THEN st
   ELSE IF ~first /\ k \in st.defined /\ st.tab[k] # v /\ k \notin st.vars
     THEN Err(st, [k |-> "redefine", key |-> k])
-  ELSE LET changed == k \in DOMAIN st.tab /\ st.tab[k] # v /\ k \notin st.vars
+  ELSE LET changed == k \notin st.vars /\ \/ (k \in DOMAIN st.tab /\ st.tab[k] # v)
+                                             \/ (k \notin DOMAIN st.tab /\ k \in st.nodes)     \* a scope node gets its value
            s1 == [st EXCEPT !.tab = (k :> v) @@ @, !.defined = @ \cup {k}] IN
        IF changed THEN [s1 EXCEPT !.undef = @ \cup {[scope |-> st.scope, name |-> name, sid |-> "def"]}] ELSE s1
 DefineVar(st, name, v) ==
   LET k == Key(st.scope, <<name>>) IN
   [st EXCEPT !.tab = (k :> v) @@ @, !.defined = @ \cup {k}, !.vars = @ \cup {k}]
 
-Push(st, name) == [st EXCEPT !.scope = Append(@, name)]
+(* entering a scope creates its node in the symbol table (without a value), and it stays there in later passes *)
+Push(st, name) == [st EXCEPT !.scope = Append(@, name), !.nodes = @ \cup {Key(st.scope, <<name>>)}]
 Pop(st) == [st EXCEPT !.scope = Front(@)]
 BlockStart(st) == IF HasSeg(st) THEN Define(st, "-", Num(TPc(st)), TRUE) ELSE st
 BlockEnd(st)   == IF HasSeg(st) THEN Define(st, "+", Num(TPc(st)), TRUE) ELSE st
@@ -148,9 +165,10 @@ RECURSIVE WalkSeq(_, _, _, _, _, _), WalkStmt(_, _, _, _, _, _), LoopIter(_, _, 
 RefTab(st, sigma, frozen) == IF frozen THEN sigma ELSE st.tab
 
 EvalE(t, st, sigma, frozen) ==
-  LET tab == RefTab(st, sigma, frozen) IN
-  IF Unresolved(t, tab, st.scope) # {} THEN [k |-> "unres", ids |-> Unresolved(t, tab, st.scope)]
-  ELSE E!Eval(t, EnvFor(t, tab, st.scope), IF HasSeg(st) THEN TPc(st) ELSE 0)
+  LET tab == RefTab(st, sigma, frozen)
+      nodes == IF frozen THEN {} ELSE st.nodes IN
+  IF Unresolved(t, tab, nodes, st.scope) # {} THEN [k |-> "unres", ids |-> Unresolved(t, tab, nodes, st.scope)]
+  ELSE E!Eval(t, EnvFor(t, tab, nodes, st.scope), IF HasSeg(st) THEN TPc(st) ELSE 0)
 
 NoteUnresAt(st, v, frozen, sid) ==
   IF frozen THEN Err(st, [k |-> "unresolved", ids |-> {i.name : i \in v.ids}])
@@ -182,13 +200,16 @@ WalkStmt(s, st, sigma, frozen, af, md) ==
     [] s.k = "insn" ->
         IF s.form = "imp"
           THEN LET enc == I!Encode(s.mn, "imp", 0, 0) IN
-               IF enc.k = "bytes" THEN Emit(st, enc.b, s.sid) ELSE Err(st, [k |-> "invalid", sid |-> s.sid])
+               IF enc.k = "bytes" THEN Emit(st, enc.b, s.sid) ELSE Err(Emit(st, <<0>>, s.sid), [k |-> "invalid", sid |-> s.sid])
         ELSE LET v == EvalE(s.e, st, sigma, frozen) IN
           IF v.k = "unres" THEN Emit(NoteUnresAt(st, v, frozen, s.sid), <<>>, s.sid)
           ELSE IF v.k # "num" THEN Unspec(st)
           ELSE LET enc == I!Encode(s.mn, s.form, v.n, IF HasSeg(st) THEN TPc(st) ELSE v.n - 2) IN
                IF enc.k = "bytes" THEN Emit(st, enc.b, s.sid)
-               ELSE IF enc.k = "err" THEN Err(st, [k |-> "invalid", sid |-> s.sid])
+               ELSE IF enc.k = "err"
+                 THEN (IF I!IsBranch(s.mn) /\ s.form = "dir"
+                         THEN Err(st, [k |-> "branch", sid |-> s.sid, v |-> v.n, pc |-> IF HasSeg(st) THEN TPc(st) ELSE 0])   \* the message names both addresses
+                         ELSE Err(Emit(st, <<0>>, s.sid), [k |-> "invalid", sid |-> s.sid]))     \* a BRK is emitted in its place
                ELSE Unspec(st)
     [] s.k = "data" ->
         LET F[i \in 0..Len(s.es)] ==
@@ -229,7 +250,9 @@ WalkStmt(s, st, sigma, frozen, af, md) ==
     [] s.k = "useseg" ->
         IF s.name \notin DOMAIN st.segs THEN Err(st, [k |-> "unknownseg", sid |-> s.sid])
         ELSE IF s.hasBody
-          THEN LET r == WalkSeq(s.body, [st EXCEPT !.cur = s.name], sigma, frozen, af, md) IN [r EXCEPT !.cur = st.cur]
+          THEN LET r == WalkSeq(s.body, [st EXCEPT !.cur = s.name], sigma, frozen, af, md) IN
+               (* as coded: an error inside the block returns early, and the previous segment is not restored for the rest of the pass *)
+               IF ~frozen /\ r.errs # st.errs THEN r ELSE [r EXCEPT !.cur = st.cur]
           ELSE [st EXCEPT !.cur = s.name]
     [] s.k = "if" ->
         LET v == EvalE(s.e, st, sigma, frozen) IN
@@ -286,8 +309,8 @@ WalkStmt(s, st, sigma, frozen, af, md) ==
     [] OTHER -> st
 
 (* symbols the pass loop registers for every segment after each pass *)
-SegLo(s) == IF DOMAIN s.mem = {} THEN s.init ELSE CHOOSE a \in DOMAIN s.mem : \A b \in DOMAIN s.mem : a <= b
-SegHi(s) == IF DOMAIN s.mem = {} THEN s.init ELSE (CHOOSE a \in DOMAIN s.mem : \A b \in DOMAIN s.mem : a >= b) + 1
+SegLo(s) == IF s.touched THEN s.rlo ELSE s.init
+SegHi(s) == IF s.touched THEN s.rhi ELSE s.init
 SegSyms(segs) ==
   LET names == DOMAIN segs IN
   [k \in {"segments." \o n \o ".start" : n \in names} \cup {"segments." \o n \o ".end" : n \in names} |->
@@ -295,7 +318,7 @@ SegSyms(segs) ==
      IF k = "segments." \o n \o ".start" THEN Num(SegLo(segs[n])) ELSE Num(SegHi(segs[n]))]
 
 (* range bytes of a segment as the implementation reports them: gaps read as 0 *)
-SegBytes(s) == IF DOMAIN s.mem = {} THEN <<>>
+SegBytes(s) == IF ~s.touched THEN <<>>
                ELSE [i \in 1..(SegHi(s) - SegLo(s)) |-> LET a == SegLo(s) + i - 1 IN IF a \in DOMAIN s.mem THEN s.mem[a] ELSE 0]
 
 (* ---------------------------------------------------------------- reference semantics *)
@@ -324,13 +347,13 @@ RefL(prog, files, sigma, defaultPc, af, move) ==
 (* ---------------------------------------------------------------- the pass loop *)
 (* Machine state: [tab, segs, cur0, undef, prevUndef, errs, prevErrs, pass, phase]            *)
 (*   phase \in {"run", "ok", "failed"}                                                       *)
-ResetSeg(s) == [s EXCEPT !.pc = s.init, !.mem = <<>>]
+ResetSeg(s) == [s EXCEPT !.pc = s.init, !.mem = <<>>, !.rlo = s.init, !.rhi = s.init, !.touched = FALSE]
 MInit == [tab |-> <<>>, segs |-> <<>>, cur0 |-> "", undef |-> {}, prevUndef |-> {}, errs |-> {}, prevErrs |-> {},
-          pass |-> 0, phase |-> "run", vars |-> {}]
+          pass |-> 0, phase |-> "run", vars |-> {}, nodes |-> {}]
 
 (* one pass: walk in place, then (re)register the segment symbols through the same insertion rule *)
 RunPass(prog, m, af) ==
-  LET st0 == [InitState(m.tab, [n \in DOMAIN m.segs |-> ResetSeg(m.segs[n])], m.cur0) EXCEPT !.undef = m.undef, !.vars = m.vars]
+  LET st0 == [InitState(m.tab, [n \in DOMAIN m.segs |-> ResetSeg(m.segs[n])], m.cur0) EXCEPT !.undef = m.undef, !.vars = m.vars, !.nodes = m.nodes]
       r  == WalkSeq(prog, st0, <<>>, FALSE, af, [md |-> MacroDefs(prog, <<>>), files |-> <<>>, moveMacro |-> FALSE])
       ss == SegSyms(r.segs)
       K  == DOMAIN ss
@@ -347,14 +370,14 @@ RunPass(prog, m, af) ==
 Decide(m, r, defaultPc) ==
   IF DOMAIN r.segs = {}            \* pass 0 of a program without segment definitions: create the default segment
     THEN [m EXCEPT !.tab = r.tab, !.segs = ("default" :> NewSeg(defaultPc, defaultPc)), !.cur0 = "default",
-                   !.undef = r.undef, !.prevErrs = r.errs, !.errs = {}, !.pass = @ + 1, !.vars = r.vars]
+                   !.undef = r.undef, !.prevErrs = r.errs, !.errs = {}, !.pass = @ + 1, !.vars = r.vars, !.nodes = r.nodes]
   ELSE IF r.errs # {} /\ r.errs = m.prevErrs
     THEN [m EXCEPT !.tab = r.tab, !.segs = r.segs, !.errs = r.errs, !.phase = "failed"]
   ELSE IF r.errs = {} /\ r.undef = {}
     THEN [m EXCEPT !.tab = r.tab, !.segs = r.segs, !.errs = {}, !.undef = {}, !.phase = "ok"]
   ELSE IF r.errs = {} /\ r.undef = m.prevUndef
     THEN [m EXCEPT !.tab = r.tab, !.segs = r.segs, !.undef = r.undef, !.phase = "failed"]     \* "unknown identifier"
-  ELSE [m EXCEPT !.tab = r.tab, !.segs = r.segs, !.vars = r.vars,
+  ELSE [m EXCEPT !.tab = r.tab, !.segs = r.segs, !.vars = r.vars, !.nodes = r.nodes,
                  !.prevUndef = IF r.errs = {} THEN r.undef ELSE @,
                  !.undef = IF r.errs = {} THEN {} ELSE r.undef,
                  !.prevErrs = r.errs, !.errs = {}, !.pass = @ + 1]
